@@ -15,6 +15,14 @@ structure State where
   cuts : List Cut := []
   byHash : List (UInt64 × Cut) := []
   pending : Option (Bytes × UInt16 × UInt16) := none
+  policy : Policy := { forwardV4 := 32, forwardV6 := 128, minScopeV4 := 32, minScopeV6 := 128 }
+  prefetchOn : Bool := false
+  /-- ids of entries inside their prefetch window -/
+  aged : List Nat := []
+  /-- ids of entries whose refresh is queued (`entry.prefetch` claimed) -/
+  claimed : List Nat := []
+  /-- the prefetch queue: key, the entry that claimed, the trigger request -/
+  queue : List (UInt64 × Entry × Req) := []
 
 /-! ### parsing -/
 
@@ -186,7 +194,52 @@ def applyPurged (s : State) (name : Bytes) (qtype qclass : UInt16) (a f c h : Li
 def clientScopes (s : State) (client : Scope) : Scope × Bool :=
   match client with
   | none => (none, false)
-  | some c => (if s.ecs then some (c.withBits c.bits) else none, true)
+  | some c => (if s.ecs then some (clampSource s.policy c) else none, true)
+
+/-- `ShouldPrefetch ∧ PrefetchEligible` for the harness' notion of age. -/
+def due (s : State) (e : Entry) : Bool :=
+  shouldQueuePrefetch s.prefetchOn (s.aged.contains e.id && !s.claimed.contains e.id) e
+
+/-- one client request through the pipeline model: outcome, presentation name, request
+scope, ECS flag; a hit served by the decoded body on an entry that is due claims and
+queues its refresh (`handleCacheHit`). -/
+def runRequest (s : State) (route : String) (i : Ident) (client : Scope) :
+    Option (State × Outcome × Option Bytes × Bytes × Scope × Bool) :=
+  let (cs, hasECS) := clientScopes s client
+  let W := world s
+  let queued := fun (p : Bytes) (o : Outcome) =>
+    match o with
+    | Outcome.hit (e :: _) =>
+      if due s e then
+        { s with claimed := e.id :: s.claimed,
+                 queue := s.queue ++ [((CacheKey.mk p i.qtype i.qclass i.cd none).hash H, e,
+                                       ({ name := p, qtype := i.qtype, qclass := i.qclass, cd := i.cd, hasECS := hasECS } : Req))] }
+      else s
+    | _ => s
+  match route, i.name with
+  | "wire", Name.wire wn =>
+    match present wn with
+    | some p =>
+      let o := if hasECS then serveMsg H W p i.qtype i.qclass i.cd cs hasECS
+               else serveWire H W wn i.qtype i.qclass i.cd (due s)
+      some (queued p o, o, some p, p, cs, hasECS)
+    | none => none
+  | "msg", n =>
+    match n.presentation with
+    | some p =>
+      let o := serveMsg H W p i.qtype i.qclass i.cd cs hasECS
+      some (queued p o, o, some p, p, cs, hasECS)
+    | none => none
+  | "store", n =>
+    match n.presentation with
+    | some p => some (s, storeGet H W p i.qtype i.qclass i.cd hasECS, none, p, cs, hasECS)
+    | none => none
+  | _, _ => none
+
+def parsePolicy (cfg : String) : Option (Policy × Bool) :=
+  match (cfg.splitOn ",").mapM (·.toNat?) with
+  | some [f4, f6, m4, m6, pf] => some ({ forwardV4 := f4, forwardV6 := f6, minScopeV4 := m4, minScopeV6 := m6 }, pf > 0)
+  | _ => none
 
 def stepKey (w : List String) : String :=
   match w with
@@ -252,6 +305,44 @@ def stepVer (w : List String) : String :=
 def stepPipe (s : State) (w : List String) : State × String :=
   match w with
   | ["pipe", "new", e] => ({ ecs := e == "on" }, "ok")
+  | ["pipe", "new", e, cfg] =>
+    match parsePolicy cfg with
+    | some (pol, pf) => ({ ecs := e == "on", policy := pol, prefetchOn := pf }, "ok")
+    | none => (s, "bad-op")
+  | ["pipe", "age", idn] =>
+    match idn.toNat? with
+    | some id => if s.st.any (·.2.id == id) then ({ s with aged := id :: s.aged }, "ok") else (s, "no-such-entry")
+    | none => (s, "bad-op")
+  | ["pipe", "drain", first] =>
+    match first.toNat? with
+    | some id0 =>
+      let (st, _, parts) := s.queue.foldl (fun (acc : AStore × Nat × List String) (item : UInt64 × Entry × Req) =>
+        let (st, id, parts) := acc
+        let (key, e, trig) := item
+        let asked := prefetchRequest trig
+        let (st', ok) := processPrefetch st key e trig id
+        (st', id + 1, parts ++ [s!"asked=p:{bytesHex asked.name},{asked.qtype.toNat},{asked.qclass.toNat},{boolStr asked.cd} id={id} r={boolStr ok}"]))
+        (s.st, id0, [])
+      ({ s with st := st, queue := [], claimed := [] }, if parts.isEmpty then "none" else ";".intercalate parts)
+    | none => (s, "bad-op")
+  | ["pipe", "ask", route, ids, cl, idn, sb] =>
+    match parseIdent ids, parseScope cl, idn.toNat? with
+    | some i, some client, some id =>
+      let sbits : Option (Option Nat) := if sb == "-" then some none else sb.toNat?.map some
+      match runRequest s route i client, sbits with
+      | some (s', o, rn, p, cs, _), some sbits =>
+        match o with
+        | Outcome.miss =>
+          -- the miss reaches the upstream; `WriteMsg` admits its answer
+          let sc := admitScope s.policy cs sbits
+          let key := (CacheKey.mk p i.qtype i.qclass i.cd sc).hash H
+          let st := admitAnswer H s.policy s.st id p i.qtype i.qclass i.cd cs sbits
+          let fs := if (normalizeKeyScope sc).isNone then resetQuestion H s.fs p i.qtype i.qclass i.cd none else s.fs
+          let fs := resetMatching H fs p i.qtype i.qclass i.cd cs
+          ({ s with st := st, fs := fs }, s!"ans {id} key={hex16 key} scope={fmtScope (normalizeKeyScope sc)}")
+        | _ => (s', showOutcome rn o)
+      | _, _ => (s, "bad-op")
+    | _, _, _ => (s, "bad-op")
   | ["pipe", "set", spec, ids, idn, al] =>
     match parseIdent ids, idn.toNat? with
     | some i, some id =>
@@ -321,24 +412,9 @@ def stepPipe (s : State) (w : List String) : State × String :=
   | ["pipe", "get", route, ids, cl] =>
     match parseIdent ids, parseScope cl with
     | some i, some client =>
-      let (cs, hasECS) := clientScopes s client
-      let W := world s
-      match route, i.name with
-      | "wire", Name.wire wn =>
-        if hasECS then
-          match present wn with
-          | some p => (s, showOutcome (some p) (serveMsg H W p i.qtype i.qclass i.cd cs hasECS))
-          | none => (s, "bad-op")
-        else (s, showOutcome (present wn) (serveWire H W wn i.qtype i.qclass i.cd))
-      | "msg", n =>
-        match n.presentation with
-        | some p => (s, showOutcome (some p) (serveMsg H W p i.qtype i.qclass i.cd cs hasECS))
-        | none => (s, "bad-op")
-      | "store", n =>
-        match n.presentation with
-        | some p => (s, showOutcome none (storeGet H W p i.qtype i.qclass i.cd hasECS))
-        | none => (s, "bad-op")
-      | _, _ => (s, "bad-op")
+      match runRequest s route i client with
+      | some (s', o, rn, _, _, _) => (s', showOutcome rn o)
+      | none => (s, "bad-op")
     | _, _ => (s, "bad-op")
   | ["pipe", "lbkv", spec, ids] =>
     match parseIdent ids with
